@@ -209,6 +209,8 @@ type simSpeaker struct {
 	txAddPath map[bgp.Family]bool // path ids present in what we send
 	ext       bool
 	dupID     []string // protocol-level anomalies seen by the receiver model
+	overMax   int                  // >0: note paths that arrive while the prefix already holds overMax paths
+	overSent  map[simRouteKey]bool // such paths (until withdrawn / session end)
 	readerWG  sync.WaitGroup
 
 	pmu    sync.Mutex
@@ -307,6 +309,7 @@ func (sp *simSpeaker) handshake(mine net.Conn) error {
 	sp.mu.Lock()
 	sp.c = mine
 	sp.view = map[simRouteKey]simRoute{}
+	sp.overSent = map[simRouteKey]bool{}
 	sp.eor = map[bgp.Family]int{}
 	sp.notif = nil
 	sp.closedErr = nil
@@ -507,26 +510,51 @@ func (sp *simSpeaker) applyUpdate(u *bgp.BGPUpdate) {
 		sp.eor[fam]++
 		return
 	}
+	del := func(k simRouteKey) {
+		delete(sp.view, k)
+		delete(sp.overSent, k)
+	}
+	put := func(k simRouteKey, r simRoute) {
+		if _, held := sp.view[k]; !held && sp.overMax > 0 {
+			var same []simRouteKey
+			for o := range sp.view {
+				if o.Family == k.Family && o.Prefix == k.Prefix {
+					same = append(same, o)
+				}
+			}
+			if len(same) >= sp.overMax {
+				// more paths than overMax for this prefix from now on: every path involved is noted
+				if sp.overSent == nil {
+					sp.overSent = map[simRouteKey]bool{}
+				}
+				sp.overSent[k] = true
+				for _, o := range same {
+					sp.overSent[o] = true
+				}
+			}
+		}
+		sp.view[k] = r
+	}
 	for _, w := range u.WithdrawnRoutes {
-		delete(sp.view, simRouteKey{bgp.RF_IPv4_UC, w.NLRI.String(), w.ID})
+		del(simRouteKey{bgp.RF_IPv4_UC, w.NLRI.String(), w.ID})
 	}
 	attrs, nh := simCanonAttrs(u.PathAttributes)
 	for _, a := range u.PathAttributes {
 		if un, ok := a.(*bgp.PathAttributeMpUnreachNLRI); ok {
 			fam := bgp.NewFamily(un.AFI, un.SAFI)
 			for _, w := range un.Value {
-				delete(sp.view, simRouteKey{fam, w.NLRI.String(), w.ID})
+				del(simRouteKey{fam, w.NLRI.String(), w.ID})
 			}
 		}
 	}
 	for _, nl := range u.NLRI {
-		sp.view[simRouteKey{bgp.RF_IPv4_UC, nl.NLRI.String(), nl.ID}] = simRoute{attrs, nh}
+		put(simRouteKey{bgp.RF_IPv4_UC, nl.NLRI.String(), nl.ID}, simRoute{attrs, nh})
 	}
 	for _, a := range u.PathAttributes {
 		if re, ok := a.(*bgp.PathAttributeMpReachNLRI); ok {
 			fam := bgp.NewFamily(re.AFI, re.SAFI)
 			for _, nl := range re.Value {
-				sp.view[simRouteKey{fam, nl.NLRI.String(), nl.ID}] = simRoute{attrs, nh}
+				put(simRouteKey{fam, nl.NLRI.String(), nl.ID}, simRoute{attrs, nh})
 			}
 		}
 	}
